@@ -626,7 +626,7 @@ func (e *Engine) convert(from, to types.Type, x Value) Value {
 		case JBytes:
 			return StrVal{atom: &Atom{kind: "json", tree: v.tree}}
 		case bufBytes:
-			return StrVal{atom: &Atom{kind: "json", tree: e.parseSegs(v.segs)}}
+			return StrVal{atom: &Atom{kind: "json", tree: e.bytesToJ(v)}}
 		case SigBytes:
 			return StrVal{atom: v.atom}
 		}
